@@ -52,6 +52,21 @@ func harnessC03RegistryPairs() {
 	bus.Wait()
 }
 
+//verif:entry property=C03 tier=both bounds="an asynchronous invocation already in flight, then every pair of concurrent operations out of {Wait, Shutdown(live context), Publish}; every interleaving within the preemption bound; race monitor and deadlock detector" cover="pair-done" preempt_quick=1 preempt_thorough=2 race=on
+func harnessC03WaiterPairs() {
+	bus := New()
+	Subscribe(bus, c01HA[1], Async())
+	c01Log, c01Re = nil, nil
+	ops := []func(){
+		func() { bus.Wait() },
+		func() { _ = bus.Shutdown(context.Background()) },
+		func() { Publish(bus, evA{N: 1}) },
+	}
+	Publish(bus, evA{N: 0})
+	c03Pair(ops)
+	bus.Wait()
+}
+
 //verif:entry property=C03 tier=both bounds="every pair of concurrent operations out of {Publish (persisted), Replay, SubscribeWithReplay, MemoryStore Append/Read/ReadStream/SaveOffset/LoadOffset} on a persistent bus with two stored events" cover="pair-done" preempt_quick=2 preempt_thorough=2 race=on
 func harnessC03PersistPairs() {
 	ctx := context.Background()
@@ -95,15 +110,16 @@ func harnessC03UpcastPairs() {
 	c03Pair(ops)
 }
 
-//verif:entry property=C03 tier=both bounds="re-entrancy: one call back into the same bus (publish other type, publish same type from a non-sequential handler, subscribe, unsubscribe, clear, clear-all, HasHandlers, HandlerCount, or a panic of the handler) issued from inside a handler, a filter, a before-publish hook, an after-publish hook, the panic handler (after a handler panic) or the persistence error handler (after a rejected append); Sequential and Async handler flags symbolic (synchronous self-delivery to a Sequential handler excluded as in the statement)" cover="reentrant-done"
+//verif:entry property=C03 tier=both bounds="re-entrancy: one call back into the same bus (publish other type, publish same type from a non-sequential handler, subscribe, unsubscribe of another handler or of the calling handler itself, clear, clear-all, HasHandlers, HandlerCount, or a panic of the handler) issued from inside a handler, a filter, a before-publish hook, an after-publish hook, the panic handler (after a handler panic) or the persistence error handler (after a rejected append); Sequential and Async handler flags symbolic (synchronous self-delivery to a Sequential handler excluded as in the statement)" cover="reentrant-done"
 func harnessC03Reentrant() {
 	where := vPick(6) // 0 handler, 1 filter, 2 before hook, 3 after hook, 4 panic handler, 5 persistence error handler
-	what := vPick(9)
+	what := vPick(10)
 	sequential := vBool()
 	async := vBool() // the calling-back handler is dispatched asynchronously
 	var bus *EventBus
 	var once sync.Mutex
 	fired := false
+	var self Handler[evA] // the handler the call-back sites belong to
 	action := func() {
 		// exactly one call back per run (the first delivery), also when handlers run asynchronously
 		once.Lock()
@@ -137,6 +153,9 @@ func harnessC03Reentrant() {
 			// the handler gives up with a panic (recovered by the bus); only meaningful inside a handler
 			vAssume(where == 0)
 			panic("handler gives up")
+		case 9:
+			// the handler (Sequential or not) takes itself off the bus
+			Unsubscribe[evA](bus, self)
 		}
 	}
 	var opts []Option
@@ -173,14 +192,15 @@ func harnessC03Reentrant() {
 		so = append(so, WithFilter(func(e evA) bool { action(); return true }))
 	}
 	Subscribe(bus, c01HA[0])
-	Subscribe(bus, func(e evA) {
+	self = func(e evA) {
 		if where == 0 {
 			action()
 		}
 		if where == 4 {
 			panic("handler fails")
 		}
-	}, so...)
+	}
+	Subscribe(bus, self, so...)
 	Subscribe(bus, c01HB[0])
 	Publish(bus, evA{N: 1})
 	bus.Wait()
